@@ -231,7 +231,8 @@ theorem volProg_gs {fs0 : FsState} {sz : Nat} (hfit : DevFits fs0 sz) {α : Type
     PARTIAL in two named respects: (i) the cluster index is only known to satisfy `2 ≤ c` and the overflow checks of
     `offset_from_cluster` — that `c < total_clusters + 2` needs the FAT well-formedness invariant (the index comes from a
     FAT entry, a directory entry or `alloc_cluster`); (ii) the position `pos` of a `slot` record comes from a handle's
-    editor (an argument, or `entry_pos` of a directory entry read during the operation) — that it lies in a directory
+    editor (an argument, or `entry_pos` of a directory entry read during the operation — including the `..` entry of a
+    moved directory that `rename` re-points at its new parent) — that it lies in a directory
     cluster or the root region is provenance of the handle, not tracked here. `format` is not covered (it writes the
     whole metadata area from its own geometry); `mount` writes nothing (`mount_writes_nothing`). -/
 theorem writes_classified {fs0 : FsState} {α : Type} {p : Prog α} (h : VolProg fs0 p) (d : Dev)
